@@ -225,6 +225,17 @@ Proof.
   - apply Z.mul_nonneg_nonneg; [lia|]. apply Z.pow_nonneg; lia.
 Qed.
 
+
+Lemma lone_point_kind : forall (neg : bool) (r1 r2 : bytes) (d : dec),
+  (match r1, r2 with 46 :: _, [] => Some (DFin neg 0 0) | _, _ => None end) = Some d -> d = DFin neg 0 0.
+Proof.
+  intros neg r1 r2 d. destruct r1 as [|b r]; [discriminate|].
+  destruct (Z.eq_dec b 46) as [->|Hb].
+  - destruct r2; [intros H; inversion H; reflexivity | discriminate].
+  - destruct b as [|p|p]; try discriminate.
+    repeat (destruct p as [p|p|]; try discriminate). exfalso; apply Hb; reflexivity.
+Qed.
+
 Lemma parse_dec_body_wf : forall neg s d, parse_dec_body neg s = Some d -> dec_wf d.
 Proof.
   intros neg s d. unfold parse_dec_body. cbv zeta. pose proof P34_pos as HP.
@@ -237,7 +248,7 @@ Proof.
     match T with context [r1] => destruct T as [[[c nf] nd] r2] eqn:T2 end
   end.
   assert (HF : 0 <= c) by (eapply (frac_nonneg ip ni r1); [exact Hip | exact T2]).
-  destruct (nd =? 0); [discriminate|].
+  destruct (nd =? 0); [intros H; apply lone_point_kind in H; subst d; simpl; lia|].
   destruct r2 as [|b2 r].
   { pose proof (fit_wf neg c (- nf) HF) as HO. destruct (fit neg c (- nf));
       intros H; inversion H; subst; exact HO. }
